@@ -105,9 +105,9 @@ def gen_case(rng):
             ops.append(['starmap', 'sm'])
             kind = 'int'
         elif c == 'accumulate':
-            v = rng.choice(['plain', 'start', 'returns_state', 'with_state'])
+            v = rng.choice(['plain', 'start', 'returns_state', 'with_state', 'with_state_nostart', 'returns_state_with_state'])
             ops.append(['accumulate', v])
-            kind = 'tup' if v in ('returns_state', 'with_state') else 'int'
+            kind = 'tup' if v != 'plain' and v != 'start' else 'int'
         elif c == 'partition':
             ops.append(['partition', rng.choice([1, 2, 3])])
             kind = 'tup'
@@ -145,6 +145,10 @@ def build(case, dask, sink):
                 node = node.accumulate(j_add, start=0)
             elif op[1] == 'returns_state':
                 node = node.accumulate(j_add_rs, start=0, returns_state=True)
+            elif op[1] == 'with_state_nostart':
+                node = node.accumulate(j_add, with_state=True)
+            elif op[1] == 'returns_state_with_state':
+                node = node.accumulate(j_add_rs, start=0, returns_state=True, with_state=True)
             else:
                 node = node.accumulate(j_add, start=0, with_state=True)
         elif op[0] == 'partition':
@@ -203,6 +207,10 @@ def _build_local_async(case, sink):
                 node = node.accumulate(j_add, start=0)
             elif op[1] == 'returns_state':
                 node = node.accumulate(j_add_rs, start=0, returns_state=True)
+            elif op[1] == 'with_state_nostart':
+                node = node.accumulate(j_add, with_state=True)
+            elif op[1] == 'returns_state_with_state':
+                node = node.accumulate(j_add_rs, start=0, returns_state=True, with_state=True)
             else:
                 node = node.accumulate(j_add, start=0, with_state=True)
         elif op[0] == 'partition':
